@@ -171,6 +171,10 @@ def run(tier='quick'):
                           'update() reaches is followed, with no other statement between, by a test of rows_modified() whose '
                           'zero case throws (or an existence test that throws precedes it)', floor=7)
     missing_row_rejected(prog, cg, eff, chk, R11)
+    R12 = chk.rule('R12', 'every SQL statement executes where it is written (its binder is a temporary of the full '
+                          'expression), which the order-sensitive rules above (R11, the transaction scope) take for granted',
+                   floor=100)
+    c14.immediate_statements(prog, eff, chk, R12)
     return chk.finish('statement-level analysis of the 1.x storage layer and the 2.x track table; value-flow '
                       'interpretation (sa/valueflow.py) of snapshot(), update() and create_track() of both '
                       'generations with every repository callee inlined down to the SQL statements, once per '
